@@ -6,6 +6,7 @@
 package wire
 
 import (
+	"crypto/cipher"
 	"bytes"
 	"crypto/sha256"
 	"errors"
@@ -18,6 +19,7 @@ import (
 	"go.dedis.ch/kyber/v4"
 	"go.dedis.ch/kyber/v4/encrypt/ecies"
 	"go.dedis.ch/kyber/v4/group/edwards25519"
+	"go.dedis.ch/kyber/v4/group/p256"
 	"go.dedis.ch/kyber/v4/pairing/bn256"
 	"go.dedis.ch/kyber/v4/proof"
 	pvss "go.dedis.ch/kyber/v4/share/vss/pedersen"
@@ -148,6 +150,11 @@ func pool(gr *grp, t *core.Tape) []val {
 	})
 	addP("neg", func() kyber.Point { return g.Point().Neg(g.Point().Mul(sc(), nil)) })
 	addP("p-p", func() kyber.Point { a := g.Point().Mul(sc(), nil); return g.Point().Sub(a, a) })
+	// the identity reached in other ways (seed C03f: P-256 Neg(identity) was stored as (0, p))
+	addP("neg-identity", func() kyber.Point { return g.Point().Neg(g.Point().Null()) })
+	addP("zero-times-point", func() kyber.Point { return g.Point().Mul(g.Scalar().Zero(), g.Point().Mul(sc(), nil)) })
+	addP("p-plus-neg-p", func() kyber.Point { a := g.Point().Mul(sc(), nil); return g.Point().Add(a, g.Point().Neg(a)) })
+	addP("neg-of-p-minus-p", func() kyber.Point { a := g.Point().Mul(sc(), nil); return g.Point().Neg(g.Point().Sub(a, a)) })
 	addP("picked", func() kyber.Point { return g.Point().Pick(kit.Ed().XOF(t.Bytes("val", 16))) })
 	addP("embedded", func() kyber.Point {
 		p := g.Point()
@@ -155,6 +162,17 @@ func pool(gr *grp, t *core.Tape) []val {
 			return nil
 		}
 		return p.Embed(t.Bytes("val", 1+t.Intn("val", p.EmbedLen())), kit.Ed().XOF(t.Bytes("val", 16)))
+	})
+	// Pick/Embed under a stream whose first bytes are all ones: candidates at the top of the coordinate
+	// range (for P-256, x >= p needs the first four bytes ff; a random stream gets there once in 2^32)
+	ffStream := func() cipher.Stream { return &prefixStream{prefix: []byte{0xff, 0xff, 0xff, 0xff, 0xff, 0xff, 0xff, 0xff}, tail: kit.Ed().XOF(t.Bytes("val", 16))} }
+	addP("picked-top-of-range", func() kyber.Point { return g.Point().Pick(ffStream()) })
+	addP("embedded-top-of-range", func() kyber.Point {
+		p := g.Point()
+		if p.EmbedLen() <= 0 {
+			return nil
+		}
+		return p.Embed(t.Bytes("val", 1+t.Intn("val", p.EmbedLen())), ffStream())
 	})
 	addP("hashed", func() kyber.Point {
 		h, ok := g.Point().(kyber.HashablePoint)
@@ -404,6 +422,40 @@ func runC03(t *core.Tape, tier string, info *core.RunInfo) *core.Violation {
 		info.Faults["final-bytes-with-eof"]++
 		info.NonTrivial = true
 	}
+	// a receiver either allocates a value per message or decodes every message into the same object (a
+	// reused struct field, a loop variable): the result must not depend on what the object held before
+	// (seed C03g: the bn254 G2 identity decoded into a used point kept the old z coordinate)
+	reuse := t.Bool("cfg.reuse", 400)
+	var rp kyber.Point
+	var rs kyber.Scalar
+	if reuse {
+		info.Faults["receiver-object-reused"]++
+		info.NonTrivial = true
+	}
+	newP := func() kyber.Point {
+		if !reuse {
+			return g.Point()
+		}
+		if rp == nil {
+			// starts out holding some other value (taken from the pool: target groups have no Mul(s, nil))
+			rp = g.Point().Null()
+			for _, c := range vs {
+				if c.isPoint() && c.kind != "identity" && c.kind != "p-p" {
+					rp = c.p.Clone()
+				}
+			}
+		}
+		return rp
+	}
+	newS := func() kyber.Scalar {
+		if !reuse {
+			return g.Scalar()
+		}
+		if rs == nil {
+			rs = g.Scalar().SetInt64(7)
+		}
+		return rs
+	}
 	for i, v := range seq {
 		var dp kyber.Point
 		var ds kyber.Scalar
@@ -414,10 +466,10 @@ func runC03(t *core.Tape, tier string, info *core.RunInfo) *core.Violation {
 			switch mode {
 			case 0:
 				if v.isPoint() {
-					dp = g.Point()
+					dp = newP()
 					n, err = dp.UnmarshalFrom(rd)
 				} else {
-					ds = g.Scalar()
+					ds = newS()
 					n, err = ds.UnmarshalFrom(rd)
 				}
 			case 1:
@@ -428,10 +480,10 @@ func runC03(t *core.Tape, tier string, info *core.RunInfo) *core.Violation {
 				}
 			case 2:
 				if v.isPoint() {
-					dp = g.Point()
+					dp = newP()
 					err = enc.Read(rd, dp)
 				} else {
-					ds = g.Scalar()
+					ds = newS()
 					err = enc.Read(rd, ds)
 				}
 			}
@@ -699,6 +751,15 @@ func runC04(t *core.Tape, tier string, info *core.RunInfo) *core.Violation {
 			info.Faults["scalar-at-the-modulus"] += 3
 		}
 	}
+	if v.isPoint() && gr.which == 1 && strings.HasPrefix(gr.name, "bls-") {
+		// on the curve, outside the prime-order subgroup, in both serialisations (seed C04f: a new
+		// "also accept the uncompressed form" branch checked the curve equation only)
+		c, u := offSubgroupBLSG1(t.Intn("val", 6))
+		if c != nil {
+			cases = append(cases, c, u)
+			info.Faults["on-curve-off-subgroup"] += 2
+		}
+	}
 	if v.isPoint() {
 		nc := nonCanonical(gr, enc)
 		cases = append(cases, nc...)
@@ -833,6 +894,28 @@ func composites(t *core.Tape) []composite {
 	if ct, err := ecies.Encrypt(ed, X, msg, sha256.New); err == nil {
 		cs = append(cs, composite{"ecies-ciphertext", ct, func(b []byte) error { _, err := ecies.Decrypt(ed, x, b, sha256.New); return err }, true})
 	}
+	// the same message types over other groups: their decoders differ in what they leave to the caller
+	// (seed C04g: ecies.Decrypt delegated its length check to the point decoder, and the residue group's
+	// decoder accepts short input)
+	for _, og := range []struct {
+		name string
+		g    interface {
+			kyber.Group
+			kyber.Random
+		}
+	}{{"p256", p256.NewBlakeSHA256P256()}, {"qr512", p256.NewBlakeSHA256QR512()}, {"bn256-g1", bn256.NewSuiteG1()}} {
+		og := og
+		core.Guard(func() {
+			xs := og.g.Scalar().SetBytes(t.Bytes("val", 48))
+			Xs := og.g.Point().Mul(xs, nil)
+			if ct, err := ecies.Encrypt(og.g, Xs, msg, sha256.New); err == nil {
+				cs = append(cs, composite{"ecies-ciphertext-" + og.name, ct, func(b []byte) error { _, err := ecies.Decrypt(og.g, xs, b, sha256.New); return err }, true})
+			}
+			if sg, err := schnorr.Sign(og.g, xs, msg); err == nil {
+				cs = append(cs, composite{"schnorr-signature-" + og.name, sg, func(b []byte) error { return schnorr.Verify(og.g, Xs, msg, b) }, true})
+			}
+		})
+	}
 	{
 		privs, pubs := kit.KeyPairs(ed, t, "val", 3)
 		if ct, err := anon.Encrypt(ed, msg, anon.Set(pubs)); err == nil {
@@ -943,4 +1026,26 @@ func runComposite(t *core.Tape, tier string, info *core.RunInfo) *core.Violation
 	info.SigAdd("%s:%d", c.name, L)
 	info.Logf("composite %s len=%d enumerated", c.name, L)
 	return nil
+}
+
+// prefixStream is a key stream whose first bytes are fixed, followed by a pseudo-random tail.
+type prefixStream struct {
+	prefix []byte
+	tail   kyber.XOF
+	used   int
+}
+
+func (p *prefixStream) XORKeyStream(dst, src []byte) {
+	for i := range src {
+		var b byte
+		if p.used < len(p.prefix) {
+			b = p.prefix[p.used]
+		} else {
+			var one [1]byte
+			_, _ = p.tail.Read(one[:])
+			b = one[0]
+		}
+		p.used++
+		dst[i] = src[i] ^ b
+	}
 }
